@@ -30,6 +30,9 @@ ASSUMPTIONS = [
 ]
 
 
+K4 = 'grad-arccos-band:%s:second-stack-angle-within-4.5e-4-of-zero'
+
+
 def config(tier):
   return {'workers': 14, 'job_timeout': 3000, 'wall_cap': 12000}
 
@@ -59,6 +62,8 @@ def floors(tier):
     f['ev:gradient_matches_finite_differences:' + p] = 7 * k
     f['ev:gradient_finite_contact:' + p] = 6 * k
   f['models_with_sss_stack_or_slide'] = 6 * k
+  for p in ('generalized', 'spring', 'positional'):
+    f['fd_compared_at_special_state:' + p] = 5 * k
   return f
 
 
@@ -175,18 +180,8 @@ def run(job, mon):
         q[mj.jnt_qposadr[j] + 3] = 1.0
     return q
 
-  # generic states: finite + finite differences
-  for s in range(3):
-    q, qd = gen.state_inside_limits(rng, mj, frac=0.6, qscale=0.8,
-                                    qdscale=0.3)
-    a = rng.uniform(-1, 1, nu)
-    z = zvec(q, qd, a)
-    gr = np.asarray(gj(z))
-    fin = bool(np.isfinite(gr).all())
-    mon.check('gradient_finite:' + pname, fin,
-              lambda: wit(z=z, grad=gr, kind='generic'))
-    if not fin or s == 2:
-      continue
+  def fd_compare(z, gr, kind):
+    """Central differences of the jitted loss at z vs the gradient gr."""
     best = None
     kink = False
     l0 = float(lj(z))
@@ -205,11 +200,80 @@ def run(job, mon):
       best = err if best is None else min(best, err)
     if kink:
       mon.count('fd_dropped_kink:' + pname)
-      continue
+      return
     tol = 2e-3 if pname == 'positional' else 1e-5
     mon.err('gradient_vs_fd:' + pname, best)
+    if kind != 'generic':
+      mon.count('fd_compared_at_special_state:' + pname)
+    if best > tol and pname != 'generalized' and in_arccos_band(z):
+      # known finding K4: the custom JVP of safe_arccos clips its argument at
+      # 1 - 1e-7, so the derivative of a reported second stack angle is damped
+      # whenever that angle is within 4.5e-4 rad of 0
+      mon.count('ev:gradient_matches_finite_differences:' + pname)
+      mon.known(K4 % pname, lambda: wit(z=z, grad=gr, fd=fd, err=best,
+                                        kind=kind),
+                monitor='gradient_matches_finite_differences:' + pname)
+      return
     mon.check('gradient_matches_finite_differences:' + pname, best <= tol,
-              lambda: wit(z=z, grad=gr, fd=fd, err=best))
+              lambda: wit(z=z, grad=gr, fd=fd, err=best, kind=kind))
+
+  def in_arccos_band(z):
+    """True if, at init or after any of the steps, the second coordinate of
+    a link with >= 2 stacked joints is within 6e-4 rad of 0."""
+    def traj(z):
+      q, qd, a = z[:nq], z[nq:nq + nv], z[nq + nv:]
+      st = p.init(sys_, q, qd)
+      qs_ = [st.q]
+      for _ in range(nsteps):
+        st = p.step(sys_, st, a)
+        qs_.append(st.q)
+      return jp.stack(qs_)
+    qs_ = np.asarray(jax.jit(traj)(z))
+    second = []
+    for b_ in range(1, mj.nbody):
+      js = [j for j in range(mj.njnt) if mj.jnt_bodyid[j] == b_
+            and mj.jnt_type[j] != 0]
+      if len(js) >= 2:
+        second.append(mj.jnt_qposadr[js[1]])
+    return bool(second) and bool((np.abs(qs_[:, second]) < 6e-4).any())
+
+  # generic states: finite + finite differences
+  for s in range(3):
+    q, qd = gen.state_inside_limits(rng, mj, frac=0.6, qscale=0.8,
+                                    qdscale=0.3)
+    a = rng.uniform(-1, 1, nu)
+    z = zvec(q, qd, a)
+    gr = np.asarray(gj(z))
+    fin = bool(np.isfinite(gr).all())
+    mon.check('gradient_finite:' + pname, fin,
+              lambda: wit(z=z, grad=gr, kind='generic'))
+    if fin and s < 2:
+      fd_compare(z, gr, 'generic')
+  # special but smooth points: the gradient must also be *correct* there.
+  # (a) joint coordinates of order 1e-3..1e-2 (just off the default pose),
+  # (b) a generic pose with exactly zero velocity and control. Only when the
+  # default pose is strictly inside every range (no limit switching nearby).
+  zero_inside = all(
+      (not mj.jnt_limited[j]) or (mj.jnt_range[j][0] < -0.05
+                                  and mj.jnt_range[j][1] > 0.05)
+      for j in range(mj.njnt) if mj.jnt_type[j] != 0)
+  specials = []
+  if zero_inside:
+    q = identity_q()
+    for j in range(mj.njnt):
+      if mj.jnt_type[j] != 0:
+        q[mj.jnt_qposadr[j]] = float(rng.choice([-1, 1]) * 10 ** rng.uniform(
+            -3, -2))
+    specials.append(('near_zero_pose', q, rng.uniform(-0.3, 0.3, nv),
+                     rng.uniform(-1, 1, nu)))
+  q, _ = gen.state_inside_limits(rng, mj, frac=0.6, qscale=0.8)
+  specials.append(('zero_velocity', q, np.zeros(nv), np.zeros(nu)))
+  for kind_, q, qd, a in specials:
+    z = zvec(q, qd, a)
+    gr = np.asarray(gj(z))
+    if mon.check('gradient_finite_singular:' + pname, np.isfinite(gr).all(),
+                 lambda: wit(z=z, grad=gr, kind=kind_)):
+      fd_compare(z, gr, kind_)
   # singular inputs: finite only
   sing = [('all_zero', identity_q(), np.zeros(nv), np.zeros(nu))]
   q, _ = gen.state_inside_limits(rng, mj, frac=0.6, qscale=0.8)
